@@ -113,7 +113,7 @@ fn gen_case(rng: &mut Rng, kind: Kind, depth: u32, max_extra: usize) -> Case {
         let pats: Vec<Vec<u8>> = (0..npats).map(|_| if kind == Kind::NonPositive { next_unique += 1; pool[next_unique - 1].clone() } else { rng.pick(&pool[..8.min(pool.len())]).clone() }).collect();
         let refs: Vec<usize> = (0..i).filter(|j| !global || core[*j].global).collect();
         let mut g = Gen { rng, npats, fsize: data.len() as i64, scope: vec![], for_of: 0, refs, next_var: 0, slots: 0, max_slots: 58,
-                          budget: 25 + 8 * depth as i32, stream: Stream::Main, zero_of: false, iters: 1 };
+                          budget: 25 + 8 * depth as i32, stream: Stream::Main, zero_of: true, iters: 1 };
         let cond = if global { g.gen_bool(1) } else if is_target && kind == Kind::NonPositive {
             let n = g.npats;
             let (s, syn) = if g.rng.chance(1, 2) { ((0..n).collect::<Vec<_>>(), SetSyn::Them) } else {
@@ -260,8 +260,8 @@ pub fn run(args: &[String]) -> i32 {
         let tr = case.core.last().unwrap();
         let anch = anchoring(&tr.cond, tr.pats.len());
         if anch.iter().any(|a| matches!(a, Anchoring::At(_))) { stats.inc("target_has_anchored_pattern"); }
-        let coq = format!("mkCase {} {} {} {} {} {} {} {} {}", coq_list(&case.data, |b| format!("{}", b)), coq_list(&case.globals, gv_coq),
-            coq_list(&case.core, rule_coq), coq_bool(case.kind == Kind::NonPositive), coq_bool(!case.fast_scan),
+        let coq = format!("mkCase {} {} {} {} {} {} {} {}", coq_list(&case.data, |b| format!("{}", b)), coq_list(&case.globals, gv_coq),
+            coq_list(&case.core, rule_coq), coq_bool(!case.fast_scan),
             coq_list(&anch, |a| match a { Anchoring::Free => "(0%nat, 0)".to_string(), Anchoring::At(k) => format!("(1%nat, {})", coq_z(*k as i128).replace("%Z", "")), Anchoring::Unknown => "(2%nat, 0)".to_string() }),
             coq_slice(&single), coq_slice(&embedded), coq_slice(&warm));
         let replay = format!("{{\"index\":{},\"stream\":{},\"target\":{},\"fast_scan\":{},\"n_extra\":{},\"single_source\":{},\"embedded_source\":{},\"data_hex\":\"{}\",\"globals\":{},\"single\":{},\"embedded\":{},\"single_with_forced_search\":{}}}",
